@@ -3972,7 +3972,7 @@ class Wallet(object):
             if isinstance(fee, str):
                 priority = fee
             transaction.fee_per_kb = srv.estimatefee(blocks=n_blocks, priority=priority)
-            if not input_arr:
+            if not input_arr or isinstance(fee, str):
                 fee_estimate = int(transaction.estimate_size(number_of_change_outputs=number_of_change_outputs) /
                                    1000.0 * transaction.fee_per_kb)
             else:
